@@ -368,10 +368,14 @@ pub fn amount_strategy() -> impl Strategy<Value = Amount> {
 
 pub fn case_strategy() -> impl Strategy<Value = Case> {
     (prop::sample::select(PHRASES.to_vec()), amount_strategy(), value_strategy(), value_strategy(), any::<bool>(), (0u8..=1, 0u8..=1), prop_oneof![3 => Just(0usize), 1 => 1usize..4], prop_oneof![3 => Just(0u8), 2 => 1u8..4], 0u8..2).prop_map(|(phrase, x, bv, p, prefix, op_space, seps, via, order)| {
-        // `A is what % of B`: both plain or both in the same currency (the cases the statement defines)
-        let b = match &x {
-            Amount::Plain(_) => Amount::Plain(bv),
-            Amount::Money(m) => Amount::Money(MoneyLit { amount: bv, suffix: None, ..m.clone() }.normalise()),
+        // `A is what % of B`: both plain or both in the same currency; in one case in four exactly one of the two is an
+        // amount of money and the other a plain number (the percentage of the two amounts)
+        let mixed = via == 3 && phrase == Phrase::WhatPct;
+        let b = match (&x, mixed) {
+            (Amount::Plain(_), false) => Amount::Plain(bv),
+            (Amount::Money(m), false) => Amount::Money(MoneyLit { amount: bv, suffix: None, ..m.clone() }.normalise()),
+            (Amount::Plain(_), true) => Amount::Money(MoneyLit { amount: bv, suffix: None, cur: "usd".into(), spelling: crate::c06::Spelling::CodeAfter(1, 0, 0) }),
+            (Amount::Money(_), true) => Amount::Plain(bv),
         };
         Case { phrase, x, b, p: Pct { p, prefix }, op_space, seps, via, order }
     })
